@@ -319,6 +319,8 @@ func classify(msg string) string {
 		return "unused-import"
 	case strings.Contains(msg, "JSON name"):
 		return "json-field"
+	case strings.Contains(msg, "is a synthetic map entry and may not be referenced explicitly"):
+		return "map-entry-ref"
 	case strings.Contains(msg, "camel-case name"):
 		return "json-enum"
 	case strings.Contains(msg, "is deprecated as of edition"):
@@ -419,6 +421,43 @@ func jsonDump(f linker.File, text string) []any {
 	return out
 }
 
+// mapDump reports, per message of a compiled file that has a map field: per field its name, internal.MapEntry of the
+// name, whether its label is repeated, and the simple name of the map-entry message nested in the same message that
+// its type_name refers to ("" for every other field). Facts of Model/MapRelink.v.
+func mapDump(fdp *descriptorpb.FileDescriptorProto) []any {
+	var out []any
+	var doMsg func(scope string, m *descriptorpb.DescriptorProto)
+	doMsg = func(scope string, m *descriptorpb.DescriptorProto) {
+		n := join(scope, m.GetName())
+		entries := map[string]string{}
+		for _, nm := range m.NestedType {
+			if nm.GetOptions().GetMapEntry() {
+				entries["."+join(n, nm.GetName())] = nm.GetName()
+			}
+		}
+		fields := []any{}
+		hasMap := false
+		for _, fd := range m.Field {
+			ref := entries[fd.GetTypeName()]
+			if ref != "" {
+				hasMap = true
+			}
+			fields = append(fields, []any{fd.GetName(), internal.MapEntry(fd.GetName()),
+				fd.GetLabel() == descriptorpb.FieldDescriptorProto_LABEL_REPEATED, ref})
+		}
+		if hasMap {
+			out = append(out, map[string]any{"msg": n, "fields": fields})
+		}
+		for _, nm := range m.NestedType {
+			doMsg(n, nm)
+		}
+	}
+	for _, m := range fdp.MessageType {
+		doMsg(fdp.GetPackage(), m)
+	}
+	return out
+}
+
 // in:  files {name: text}, order [names], mode, mode2 (mode of the second compilation; default = mode), corr bool
 // out: {err} | {files: [...], object: {...}, bytes: {...}, desc: {...}, corr: [...]}
 func relinkCase(in map[string]any) map[string]any {
@@ -514,6 +553,16 @@ func relinkCase(in map[string]any) map[string]any {
 					"rl_err":   d2.errByFile["json-field|"+f.Path()]})
 			}
 			out["jcorr"] = dumps
+			// map-entry references: the map fields of every message and the errors of the re-link about them
+			var mdumps []any
+			for _, f := range first {
+				ms := mapDump(orig[f.Path()])
+				if len(ms) == 0 {
+					continue
+				}
+				mdumps = append(mdumps, map[string]any{"name": f.Path(), "msgs": ms, "rl_err": d2.errByFile["map-entry-ref|"+f.Path()]})
+			}
+			out["mcorr"] = mdumps
 		}
 		// the supplied objects must still be what they were
 		mutated := []any{}
